@@ -87,6 +87,13 @@ class Mod(object):
             fl = self.add("{}>>> compile('x = = {}', 'other_file.py', 'exec')".format(ind, k))
             prompts.append(fl)
             exc = 'SyntaxError'
+        elif fail == 'bad_directive':
+            # a directive that cannot be applied: the statement carrying it is the failing line (nothing of it runs)
+            if D.bool():
+                prompts.append(self.add('{}>>> # a remark of its own'.format(ind)))
+            fl = self.add("{}>>> print('never{}')  # xdoctest: +REQUIRES(nosuchkind:zzz)".format(ind, k))
+            prompts.append(fl)
+            exc = 'Exception'
         elif fail == 'modfunc':
             fl = self.add('{}>>> vp_module_boom({})'.format(ind, k))
             prompts.append(fl)
